@@ -44,3 +44,17 @@ for name, post, th in (('tschuprowt_measure', tsch_post, 'thresh_tschuprowt'), (
     # the overload with a caller-supplied chi2_statistic: `measurement` is only bound in the other branch (known finding D10)
     SPECS[name + '@given'] = FunctionSpec(qual=name, name=name + '@given', file=FILE, params=[('x', OPQ), ('y', OPQ), (th, REAL), ('chi2_statistic', REAL), ('kwargs', OPQ)],
         defaults={th: RealVal(0), 'kwargs': Const('no_kwargs', OPQ.sort())}, returns=RET, opaque_functions=OPAQUE, ensures=post, numpy_division=True, locals={'measurement': DVR})
+
+
+# ------------------------------------------------------------------------------------------------ BinaryCarver._association_measure (C01: the measure the carver maximises)
+BC_FILE = 'AutoCarver/carvers/binary_carver.py'
+SELF_ANY = TObj('BinaryCarverOpaque', [('sort_by', VAL)])
+CV, TT = str_const('cramerv'), str_const('tschuprowt')
+def assoc_post(o, n, r, loc):
+    if loc is None: return [('both_measures_present', And(DVR.has(r, CV), DVR.has(r, TT)))]
+    chi2 = OpqReal(loc['chi2']); nobs = o['n_obs']; rows = OpqReal(loc['n_mod_x']); v = Sqrt(NumpyDiv(chi2, nobs))
+    return [('cramer_v_is_sqrt_chi2_over_n', And(DVR.has(r, CV), DVR.get(r, CV) == v)),
+            ('tschuprow_t_is_v_over_fourth_root_of_rows_minus_one', And(DVR.has(r, TT), DVR.get(r, TT) == NumpyDiv(v, Sqrt(Sqrt(rows - 1)))))]
+SPECS['BinaryCarver._association_measure'] = FunctionSpec(qual='BinaryCarver._association_measure', file=BC_FILE, cls='BinaryCarverOpaque', params=[('self', SELF_ANY), ('xtab', OPQ), ('n_obs', REAL)],
+    returns=DVR, opaque_functions=('chi2_contingency',), numpy_division=True, ensures=assoc_post,
+    note='the 2-column contingency table and scipy chi2 are opaque; proved: V = sqrt(chi2/n_obs), T = V / (rows-1)^(1/4)')
